@@ -10,7 +10,10 @@ from vlib import basic
 LEVEL = 'proof'
 RULE = ('generated programs with distinctive text (REM / string literals / DATA made of the letters QXZJKVW) are '
         'saved with ,P and reloaded in a Session(hide_protected=True); one case = (program, direct statement, '
-        'context plain / after a colon / under ON ERROR) or one PEEK address or one multi-step history; '
+        'context plain / after a colon / under ON ERROR) or one PEEK address or one multi-step history; the output '
+        'statements (SAVE with no mode / ,A / ,P, LIST ,"dev", BSAVE) are crossed with every output device (disk, SCRN:, '
+        'CON, NUL, CAS1: on a tape image, LPT1-3 and PRN attached to files, KYBD:/COM1:/AUX error paths) and what '
+        'arrived on each device, on the text screen and on the tape is scanned; '
         'non-trivial = the statement was dispatched to its callback (counted by pass-through wrappers on the real '
         'dispatch tables); every callback of the real tables is driven at least once per program')
 EXPLANATION = ('theorems (PcbV.Props.C16) over the generated dispatch tables: classification_total, '
@@ -19,7 +22,8 @@ EXPLANATION = ('theorems (PcbV.Props.C16) over the generated dispatch tables: cl
                '(+ self-LIST counterexample); correspondence: guard outcome (blocked / same as an unprotected twin '
                'session) and the flag after each statement and after random histories vs the Lean model; oracle: '
                'named statements must give exactly Illegal function call, no 4-byte window of the secrets may appear in '
-               'any output stream, printer stream, written file or string variable, the flag must stay set while the '
+               'any output stream, device sink (LPT1-3 files, tape image), text screen, written file or string variable '
+               '(only a properly protected ,P image may leave the session), the flag must stay set while the '
                'protected bytes are in memory, RUN output and files must equal the unprotected twin')
 TRUSTED_BASE = ['model PcbV.Model.Protected is a hand transcription of the `protected` tests in program.py, machine.py, '
                 'memory.py, implementation.py',
@@ -132,6 +136,14 @@ def leaked(windows_, blob):
 # ---------------------------------------------------------------------------------------------------
 # the probe catalogue: callback name (as in PcbV.Gen.Stmts) -> direct-mode statements with plausible arguments.
 # ('flags', 'pre') are the abstract arguments of the model (PcbV.Protected.Args).
+
+# every output device a statement can name: (name, extra model flags, error raised by the open before any guard)
+#   'D' = the device ignores the requested file type (its files report filetype 'D')
+DEVICES = [(b'DV', '', '-'), (b'SCRN:', '', '-'), (b'CON', '', '-'), (b'NUL', '', '-'), (b'CAS1:TP', '', '-'),
+           (b'LPT1:', 'D', '-'), (b'LPT2:', 'D', '-'), (b'LPT3:', 'D', '-'), (b'PRN', 'D', '-'),
+           (b'KYBD:', '', '54'), (b'COM1:', '', '68'), (b'AUX', '', '68')]
+SAVE_MODES = [(b'', 'B'), (b',A', 'A'), (b',P', 'P'), (b',p', 'P')]
+
 
 def P(text, flags='-', pre='-', keys=None, runs=False):
     return {'text': text, 'flags': flags, 'pre': pre, 'keys': keys, 'runs': runs}
@@ -309,6 +321,16 @@ def catalogue(cs, pcjr=False):
         'string_functions.right_': [P(b'Z1$=RIGHT$("ABC",2)')],
         'string_functions.string_': [P(b'Z0$=STRING$(3,65)')],
     }
+    # the disclosure matrix: every output statement form x every output device
+    for dev, dflags, pre in DEVICES:
+        for suffix, mflag in SAVE_MODES:
+            c['save_'].append(P(b'SAVE "%s"%s' % (dev, suffix), mflag + dflags, pre))
+        if not dev.startswith(b'CAS1:'):
+            # LIST to the cassette is exercised last, in device_reuse(): on the unrepaired code the refused
+            # LIST leaves CAS1: open for the rest of the session (finding C16-LIST-CAS-LOCK)
+            c['list_'].append(P(b'LIST ,"%s"' % dev, '-', pre))
+            c['list_'].append(P(b'LIST 10-9300,"%s"' % dev, '-', pre))
+        c['all_memory.bsave_'].append(P(b'BSAVE "%s",%d,300' % (dev, cs)))
     for fn in ('abs', 'atn', 'cdbl', 'cint', 'cos', 'csng', 'exp', 'fix', 'int', 'log', 'sgn', 'sin', 'sqr', 'tan'):
         c['values.%s_' % fn] = [P(b'X=%s(1.5)' % fn.upper().encode())]
     c['values.asc_'] = [P(b'X=ASC("A")')]
@@ -393,14 +415,20 @@ class World(object):
         self.hits = {}
 
     def _session(self, who):
+        """LPT1-3 are attached to files and CAS1: to a tape image, so that what arrives on them can be read."""
         d = self.dirs[who]
-        self.lpt = getattr(self, 'lpt', {})
-        self.lpt[who] = os.path.join(self.tmp, 'LPT_%s.OUT' % who)
+        self.sinks = getattr(self, 'sinks', {})
+        self.sink_pos = getattr(self, 'sink_pos', {})
+        sinks = {n: os.path.join(self.tmp, '%s_%s.OUT' % (n, who)) for n in ('LPT1', 'LPT2', 'LPT3')}
+        sinks['CAS1'] = os.path.join(self.tmp, 'TAPE_%s.cas' % who)
+        self.sinks[who] = sinks
         kw = {'video': 'vga'}
         if self.syntax:
             kw = {'syntax': self.syntax, 'term': os.path.join(d, 'ATK.BAS')}
-        return basic.new_session(devices={'C': d, 'LPT1': 'FILE:' + self.lpt[who]}, current_device='C',
-                                 hide_protected=True, **kw)
+        devices = {'C': d, 'CAS1': 'CAS:' + sinks['CAS1']}
+        for n in ('LPT1', 'LPT2', 'LPT3'):
+            devices[n] = 'FILE:' + sinks[n]
+        return basic.new_session(devices=devices, current_device='C', hide_protected=True, **kw)
 
     def wrap_tables(self, names):
         """Pass-through wrappers on the real dispatch tables of S: count which callbacks are really reached."""
@@ -468,19 +496,33 @@ class World(object):
                 w = leaked(self.windows, data)
                 if w:
                     found.append(('file:' + rel, w))
-        try:
-            s = self.sess(who)
-            s._impl.files.lpt1_file.do_print()
-            self.lpt_pos = getattr(self, 'lpt_pos', {})
-            with open(self.lpt[who], 'rb') as f:
-                f.seek(self.lpt_pos.get(who, 0))
-                data = f.read()
-                self.lpt_pos[who] = f.tell()
+        s = self.sess(who)
+        for n, path in sorted(self.sinks[who].items()):
+            try:
+                if n.startswith('LPT'):
+                    stream = s._impl.files.get_device(n.encode() + b':').stream
+                    if stream:
+                        stream.flush()
+                size = os.path.getsize(path)
+                pos = self.sink_pos.get((who, n), 0)
+                if size < pos:
+                    pos = 0
+                with open(path, 'rb') as f:
+                    f.seek(max(0, pos - 3))
+                    data = f.read()
+                self.sink_pos[(who, n)] = size
+            except EnvironmentError:
+                continue
             w = leaked(self.windows, data)
             if w:
-                found.append(('printer', w))
+                found.append(('device:' + n, w))
+        try:
+            text = b'\n'.join(b''.join(row) for row in s.get_chars())
         except Exception:
-            pass
+            text = b''
+        w = leaked(self.windows, text)
+        if w:
+            found.append(('screen', w))
         found += self.scan_vars(who)
         return found, after
 
@@ -632,12 +674,16 @@ class Checker(object):
                          % (e, out[:80]))
             elif context != 'trap' and not only_ifc(out):
                 ctx.fail('output-besides-error:%s' % name, case, 'output %r' % out[:120])
-        if name == 'save_' and 'P' in p['flags'] and p['pre'] == '-':
+        if name == 'save_' and 'P' in p['flags'] and 'D' not in p['flags'] and p['pre'] == '-':
+            # protected form to a device that has file types: the one SAVE that must succeed
             ctx.count('save-p')
-            try:
-                data = open(os.path.join(w.dirs['S'], 'SP.BAS'), 'rb').read()
-            except EnvironmentError:
-                data = None
+            target = text.split(b'"')[1]
+            data = w.pfile
+            if b':' not in target and target not in (b'CON', b'NUL', b'PRN', b'AUX'):
+                try:
+                    data = open(os.path.join(w.dirs['S'], target.decode() + '.BAS'), 'rb').read()
+                except EnvironmentError:
+                    data = None
             if e != 0 or data != w.pfile:
                 ctx.fail('save-p-refused', case, 'SAVE ,P of a protected program: error %d, file %s'
                          % (e, 'missing' if data is None else 'differs from the original ,P file'))
@@ -675,6 +721,7 @@ def sweep_named(ctx, w, n_exec, n_call, all_offsets):
     rng = ctx.rng
     S = w.S
     w.reload('S')
+    _, snap0 = w.scan('S', b'', w._snapshot('S'))
     impl = S._impl
     code0 = impl.program.bytecode.getvalue()
     size = len(code0)
@@ -746,6 +793,14 @@ def sweep_named(ctx, w, n_exec, n_call, all_offsets):
         refuse(rng.choice([b'LIST ', b'LLIST ']) + rangespec, 'list_')
         refuse(b'LIST %s,"L%d.TXT"' % (rangespec, rng.randrange(3)), 'list_')
         refuse(b'SAVE "S%d"%s' % (rng.randrange(3), rng.choice([b'', b',A', b',a'])), 'save_')
+        dev = rng.choice([d for d in DEVICES if d[2] == '-' and not d[0].startswith(b'CAS1:')])
+        refuse(b'LIST %s,"%s"' % (rangespec, dev[0]), 'list_')
+        dev = rng.choice([d for d in DEVICES if d[2] == '-'])
+        refuse(b'SAVE "%s"%s' % (dev[0], rng.choice([b'', b',A', b',a'])), 'save_')
+        # protected form requested on any device: refusal is not demanded, but nothing plain may arrive
+        w.execute('S', b'SAVE "%s",P' % rng.choice(DEVICES)[0])
+        ctx.case((w.label, 'sweep', 'save-p-device'))
+        ctx.count('sweep:save-p-device')
         num = rng.choice(linenums + [rng.randrange(65530), 0, 65529])
         refuse(b'%d%s' % (num, rng.choice([b'', b' ', b' REM X', b' LIST', b' PRINT PEEK(%d)' % w.cs])), 'enter-line')
         refuse(b'POKE %d,%d' % (rng.choice([FLAG_ADDR, w.cs + rng.randrange(size), rng.randrange(65536)]),
@@ -754,6 +809,12 @@ def sweep_named(ctx, w, n_exec, n_call, all_offsets):
         ctx.fail('program-changed', {'program': w.label, 'statement': 'sweep', 'callback': 'enter-line',
                                      'context': 'sweep', 'lines': [l.decode('latin-1') for l in w.lines]},
                  'the protected program or its flag changed during refused statements')
+    found, _ = w.scan('S', b'', snap0)
+    for where, win in found:
+        ctx.fail('leak:sweep:%s' % where.split(':')[0],
+                 {'program': w.label, 'statement': 'sweep', 'callback': where, 'context': 'sweep',
+                  'lines': [l.decode('latin-1') for l in w.lines]},
+                 'secret window %r arrived in %s during the refused-statement sweep' % (win, where))
     for fn in os.listdir(w.dirs['S']):
         if fn.startswith(('BS', 'L', 'S')) and fn not in ('SP.BAS',) and os.path.isfile(os.path.join(w.dirs['S'], fn)):
             data = open(os.path.join(w.dirs['S'], fn), 'rb').read()
@@ -767,6 +828,9 @@ HIST_POOL = [
     # (text, model op, effect on the tracker)
     (b'LIST', 'd:list_:-:-', None), (b'LLIST 10-', 'd:interpreter.llist_:-:-', None),
     (b'SAVE "HA",A', 'd:save_:A:-', None), (b'SAVE "HB"', 'd:save_:B:-', None), (b'SAVE "HP",P', 'd:save_:P:-', None),
+    (b'SAVE "LPT1:",P', 'd:save_:PD:-', None), (b'SAVE "LPT2:",A', 'd:save_:AD:-', None),
+    (b'SAVE "PRN",p', 'd:save_:PD:-', None), (b'LIST ,"LPT3:"', 'd:list_:-:-', None),
+    (b'SAVE "CAS1:HT",P', 'd:save_:P:-', None), (b'SAVE "SCRN:",P', 'd:save_:P:-', None),
     (b'X=PEEK(%(cs)d)', 'd:all_memory.peek_:-:-', None), (b'BSAVE "HM.BIN",%(cs)d,300', 'd:all_memory.bsave_:-:-', None),
     (b'DEF SEG:POKE 1450,0', 'd:all_memory.poke_:FZ:-', None), (b'DEF SEG:POKE 1450,255', 'd:all_memory.poke_:F:-', None),
     (b'DEF SEG=0:POKE 1450,0', 'd:all_memory.poke_:-:-', None), (b'DEF SEG', 'd:all_memory.def_seg_:-:-', None),
@@ -783,7 +847,7 @@ HIST_POOL = [
     (b'TRON', 'd:interpreter.tron_:-:-', None), (b'TROFF', 'd:interpreter.troff_:-:-', None),
     (b'DELETE 9300', 'd:delete_:-:-', None),
 ]
-HIST_NAMED = (b'LIST', b'LLIST', b'SAVE "HA"', b'SAVE "HB"', b'X=PEEK', b'BSAVE', b'MERGE "ATK"', b'CHAIN MERGE',
+HIST_NAMED = (b'LIST', b'LLIST', b'SAVE "HA"', b'SAVE "HB"', b'SAVE "LPT2:",A', b'X=PEEK', b'BSAVE', b'MERGE "ATK"', b'CHAIN MERGE',
               b'5 REM', b'10')
 
 
@@ -847,6 +911,43 @@ def histories(ctx, w, n, has_unprot):
         if h < 2:
             ctx.sample({'history': texts, 'observed': obs})
     ctx.compare(cases, outs, lines, 'history')
+
+
+def device_reuse(ctx, w):
+    """A refused LIST to a device leaves the device usable: afterwards SAVE in protected form to the same
+    device still succeeds (devices with file types) and nothing plain has arrived.  CAS1: comes last."""
+    S = w.S
+    cases, outs, lines = [], [], []
+    for dev, dflags, pre in DEVICES:
+        if pre != '-':
+            continue
+        w.reload('S')
+        snap = w._snapshot('S')
+        case = {'program': w.label, 'callback': 'list_', 'statement': 'LIST ,"%s"' % dev.decode(),
+                'context': 'device-reuse', 'lines': [l.decode('latin-1') for l in w.lines]}
+        out = w.execute('S', b'LIST ,"%s"' % dev)
+        e1 = err_of(S, out)
+        ctx.case((w.label, 'device-reuse', dev))
+        ctx.count('device-reuse')
+        if e1 != IFC:
+            ctx.fail('not-refused:list_', case, 'LIST to %r: expected Illegal function call, got %r' % (dev, out[:80]))
+        out2 = w.execute('S', b'SAVE "%s",P' % dev)
+        e2 = err_of(S, out2)
+        found, _ = w.scan('S', out + out2, snap)
+        for where, win in found:
+            ctx.fail('leak:list_:%s' % where.split(':')[0], case, 'secret window %r in %s' % (win, where))
+        if 'D' in dflags:
+            ok = e2 in (0, IFC)    # no protected form exists on such a device: refusal is the right answer
+        else:
+            ok = e2 == 0
+        if not ok:
+            ctx.fail('device-locked-after-refused-list:%s' % dev.decode().split(':')[0], case,
+                     'after the refused LIST ,"%s" the statement SAVE "%s",P gave %r'
+                     % (dev.decode(), dev.decode(), out2[:80]))
+        cases.append(case)
+        outs.append('ok %s %d' % ('ifc' if e1 == IFC else 'pass', bool(S._impl.program.protected)))
+        lines.append('hist 111 d:list_:-:-')
+    ctx.compare(cases, outs, lines, 'device-reuse')
 
 
 def run_equivalence(ctx, w, kind):
@@ -996,6 +1097,7 @@ def run(ctx):
             run_equivalence(ctx, w, kind)
             if pi == 0 or kind == 'stx' or not ctx.quick:
                 interactive(ctx, w)
+            device_reuse(ctx, w)
         finally:
             w.close()
     # pcjr dialect: NOISE and TERM exist only there; the named statements once more
@@ -1021,7 +1123,9 @@ def run(ctx):
     for n in never:
         ctx.disagree({'label': 'dispatch', 'callback': n}, 'never reached by its probe statements', 'probe expected')
     for d in ctx.disagreements[:30]:
-        ctx.log('DISAGREEMENT %r' % (d,))
+        ctx.log('DISAGREEMENT %s' % (repr({k: v for k, v in d.items() if k != 'case'}) + ' '
+                                     + repr({k: v for k, v in d['case'].get('input', d['case']).items()
+                                             if k != 'lines'} if isinstance(d['case'].get('input', d['case']), dict) else d['case']))[:400])
 
 
 def replay(ctx, payload):
@@ -1060,6 +1164,8 @@ def replay(ctx, payload):
             interactive(ctx, w)
         elif context == 'sweep':
             sweep_named(ctx, w, 60, 500, False)
+        elif context == 'device-reuse':
+            device_reuse(ctx, w)
         else:
             stm, fns, names = gen_names()
             w.wrap_tables(names)
@@ -1069,6 +1175,9 @@ def replay(ctx, payload):
             probes = [p for p in catalogue(w.cs).get(name, []) if p['text'] == text] or [P(text)]
             chk.probe(w, name, probes[0], context or 'plain', with_twin=False)
         new = ctx.failures[before:]
+        if payload.get('key'):
+            # the replay is about one failure class; other (e.g. known) findings on the way do not count
+            new = [f for f in new if f['key'] == payload['key']]
         return new[0]['what'] if new else None
     finally:
         w.close()
